@@ -209,21 +209,20 @@ def run_sequence(cfg, seq, stop_at_first=True):
                         gh.prev, gh.base, gh.alloc_since_reset = None, None, 0
                         n_inj += 1
                         rec = st.injections[-1]
-                        if rec['counters'] != rec['expected'] and not in_prelude:
-                            viol.append(dict(_inject_violation(rec, inj_info, sym), step=idx - len(PRELUDES[prename]) + 1))
-                        elif rec['counters'] != rec['expected']:
-                            raise RuntimeError(f'prelude {prename} itself violates the property: {rec}')
+                        if rec['counters'] != rec['expected']:
+                            # (inside the prelude: step 0, the witness is the configuration alone)
+                            viol.append(dict(_inject_violation(rec, inj_info, sym), step=max(0, idx - len(PRELUDES[prename]) + 1)))
             flags = f2
         except RpcError as e:
             raised.append((idx, sym, 'RpcError'))
             if sym in ('I-', 'X-') and flags is not None:
                 flags = step_flags(flags, sym) or flags
             # fill / autofill / send refused by the node: the current group is unchanged
-        except RuntimeError:
-            raise
         except Exception as e:      # the client raised something else: recorded, never a violation by itself
             raised.append((idx, sym, f'{type(e).__name__}: {e}'))
             break
+        for v in viol:
+            v.setdefault('step', max(0, idx - len(PRELUDES[prename]) + 1))
         done = idx + 1
         log.append((sym, [c.get('counter') for c in g.contents] if g is not None else None))
         if viol and stop_at_first:
